@@ -330,6 +330,8 @@ static void dump_bb_trace(const vh::Recorder & rec, const vh::PlanSource & src)
     } else if (e.kind == 2 && e.name == "bb_trial1") {
       int acc = !(e.a[2] * next_u(e) > e.a[3]);
       std::fprintf(bb_out, "{\"e\":\"T1\",\"e1\":%lld,\"k\":%d,\"acc\":%d}\n", i8(e.a[0]), (int)e.a[1], acc);
+    } else if (e.kind == 2 && e.name == "bb_scan2") {
+      std::fprintf(bb_out, "{\"e\":\"S2\",\"ks\":%d,\"kf\":%d}\n", (int)e.a[2], (int)e.a[3]);
     } else if (e.kind == 2 && e.name == "bb_trial2") {
       int acc = !(e.a[2] * next_u(e) > e.a[1]);
       std::fprintf(bb_out, "{\"e\":\"T2\",\"e2\":%lld,\"acc\":%d}\n", i8(e.a[0]), acc);
@@ -580,11 +582,12 @@ int main(int argc, char ** argv)
       }
       std::vector<double> tplan;
       bool reserve_event = false;
-      bxdecay0::bbpars pars;
+      bool keep_pars     = false;
+      // optional trailers ("R": event object with room for 64 particles): "T k v1..vk" transition-outcome deviates; "N c1..c7" nuclear matrix elements of the
+      // rhc-eta mode, set on both sides (Decay0: COMMON /eta_nme/); "K": the caller-owned parameter block of the previous "K" job is
+      // initialised again without being reset (legacy interface: genbbsub(..., ISTART_INIT, ..., bbpars) on a block in use)
+      double nme[7] = {0, 0, 0, 0, 0, 0, 0};
       {
-        // optional trailers ("R": event object with room for 64 particles): "T k v1..vk" transition-outcome deviates; "N c1..c7" nuclear matrix elements of the
-        // rhc-eta mode, set on both sides (Decay0: COMMON /eta_nme/)
-        double nme[7] = {0, 0, 0, 0, 0, 0, 0};
         std::string tag;
         while (ls >> tag) {
           if (tag == "T") {
@@ -599,15 +602,25 @@ int main(int argc, char ** argv)
             for (int i = 0; i < 7; i++) ls >> nme[i];
           } else if (tag == "R") {
             reserve_event = true;
+          } else if (tag == "K") {
+            keep_pars = true;
           }
         }
-        pars.chi_GTw = eta_nme_.chi_GTw = nme[0];
-        pars.chi_Fw  = eta_nme_.chi_Fw  = nme[1];
-        pars.chip_GT = eta_nme_.chip_GT = nme[2];
-        pars.chip_F  = eta_nme_.chip_F  = nme[3];
-        pars.chip_T  = eta_nme_.chip_T  = nme[4];
-        pars.chip_P  = eta_nme_.chip_P  = nme[5];
-        pars.chip_R  = eta_nme_.chip_R  = nme[6];
+      }
+      static bxdecay0::bbpars kept_pars;
+      bxdecay0::bbpars fresh_pars;
+      bxdecay0::bbpars & pars = keep_pars ? kept_pars : fresh_pars;
+      pars.chi_GTw = eta_nme_.chi_GTw = nme[0];
+      pars.chi_Fw  = eta_nme_.chi_Fw  = nme[1];
+      pars.chip_GT = eta_nme_.chip_GT = nme[2];
+      pars.chip_F  = eta_nme_.chip_F  = nme[3];
+      pars.chip_T  = eta_nme_.chip_T  = nme[4];
+      pars.chip_P  = eta_nme_.chip_P  = nme[5];
+      pars.chip_R  = eta_nme_.chip_R  = nme[6];
+      if (keep_pars) {
+        // the user of a block in use states the window of the new request explicitly
+        pars.ebb1 = 0.0;
+        pars.ebb2 = 4.3;
       }
       if (semin != "x") pars.ebb1 = std::atof(semin.c_str());
       if (semax != "x") pars.ebb2 = std::atof(semax.c_str());
